@@ -5,11 +5,94 @@
 From Coq Require Import ZArith NArith List Bool String.
 From Falcon.lib Require Import PyStr.
 From Falcon.C09 Require Import Model.
-From Falcon.C06 Require Import Model Spec Proofs.
+From Falcon.C06 Require Import Model Spec Proofs View ProofsView.
 Import ListNotations.
 
-(* Full statement (DESIGN.md): forall r, valid_areq r -> wsgi_view (env_of r) = asgi_view (scope_of r).
-   Proved components: *)
+
+(* ---- THE RECORD THEOREM.  For every HTTP-valid abstract request and all request options, the
+   view falcon.Request computes from the PEP 3333 encoding equals the view falcon.asgi.Request
+   computes from the ASGI encoding: method, path, query_string, params, content_type,
+   content_length, scheme, host, port, netloc, subdomain, root_path, relative_uri, uri, prefix,
+   forwarded_scheme/host/uri/prefix, access_route, remote_addr, cookies, range, range_unit,
+   if_match, if_none_match, accept, user_agent, referer, expect, if_range, auth.
+   valid_areq: header names without underscore, no duplicated singleton header, ASCII query string
+   and Content-Length value, scheme http/https, a non-empty peer address, and the contracts of the
+   three stdlib oracles (utf-8/replace decoding of the path, str(port)/int(text)). *)
+Theorem C06_views_agree : forall r o,
+  valid_areq r -> wsgi_view true o (env_of_req r) = asgi_view true o (scope_of_req r).
+Proof. exact views_agree. Qed.
+Print Assumptions C06_views_agree.
+
+(* Request.get_header agrees for EVERY field name in every casing (the view record holds the named
+   accessors only) *)
+Theorem C06_headers_agree : forall hs n,
+  valid_headers hs = true -> uf n = true ->
+  wsgi_get (env_of hs) n = asgi_get (scope_of hs) n.
+Proof. exact headers_agree. Qed.
+Print Assumptions C06_headers_agree.
+
+Theorem C06_store_keys_agree : forall hs n,
+  valid_headers hs = true -> uf n = true ->
+  lookup (env_of hs) (env_key n) = lookup (scope_of hs) (lower n).
+Proof. exact store_keys_agree. Qed.
+Print Assumptions C06_store_keys_agree.
+
+Theorem C06_env_key_injective : forall n1 n2,
+  uf n1 = true -> uf n2 = true -> env_key n1 = env_key n2 -> lower n1 = lower n2.
+Proof. exact env_key_injective. Qed.
+Print Assumptions C06_env_key_injective.
+
+Theorem C06_lookups_agree_sound : forall hs names,
+  valid_headers hs = true -> forallb uf names = true -> lookups_agree hs names = true.
+Proof. exact lookups_agree_sound. Qed.
+Print Assumptions C06_lookups_agree_sound.
+
+(* per-field theorems for the accessors the two classes implement separately *)
+Theorem C06_port_field : forall r,
+  valid_areq r -> wsgi_port true (env_of_req r) = asgi_port true (scope_of_req r).
+Proof. exact port_field. Qed.
+Print Assumptions C06_port_field.
+
+Theorem C06_netloc_field : forall r,
+  valid_areq r -> wsgi_netloc (env_of_req r) = asgi_netloc (scope_of_req r).
+Proof. exact netloc_field. Qed.
+Print Assumptions C06_netloc_field.
+
+Theorem C06_content_length_field : forall r,
+  valid_areq r ->
+  content_length_wsgi (wk (env_of_req r) n_content_length) =
+  content_length_asgi (ak (scope_of_req r) n_content_length).
+Proof. exact content_length_field. Qed.
+Print Assumptions C06_content_length_field.
+
+Theorem C06_remote_addr_field : forall fwd xff xreal peer,
+  peer <> [] ->
+  asgi_remote_addr true fwd xff xreal (Some peer) = Ok (wsgi_remote_addr (Some peer)).
+Proof. exact remote_addr_field. Qed.
+Print Assumptions C06_remote_addr_field.
+
+Theorem C06_literal_keys :
+  env_key n_host = lit "HTTP_HOST" /\ env_key n_content_type = lit "CONTENT_TYPE" /\
+  env_key n_content_length = lit "CONTENT_LENGTH" /\ env_key n_forwarded = lit "HTTP_FORWARDED" /\
+  env_key n_xff = lit "HTTP_X_FORWARDED_FOR" /\ env_key n_xreal = lit "HTTP_X_REAL_IP" /\
+  env_key n_xproto = lit "HTTP_X_FORWARDED_PROTO" /\ env_key n_xhost = lit "HTTP_X_FORWARDED_HOST" /\
+  env_key n_if_match = lit "HTTP_IF_MATCH" /\ env_key n_if_none_match = lit "HTTP_IF_NONE_MATCH" /\
+  env_key n_accept = lit "HTTP_ACCEPT" /\ env_key n_user_agent = lit "HTTP_USER_AGENT" /\
+  env_key n_referer = lit "HTTP_REFERER" /\ env_key n_expect = lit "HTTP_EXPECT" /\
+  env_key n_if_range = lit "HTTP_IF_RANGE" /\ env_key n_auth = lit "HTTP_AUTHORIZATION".
+Proof. exact literal_keys. Qed.
+Print Assumptions C06_literal_keys.
+
+(* outside valid_areq: a duplicated singleton header is comma-joined by the PEP 3333 server but
+   last-wins in the ASGI class *)
+Theorem C06_headers_agree_refuted_duplicated_singleton :
+  exists hs n, forallb (fun h => uf (fst h)) hs = true /\ uf n = true /\
+               wsgi_get (env_of hs) n <> asgi_get (scope_of hs) n.
+Proof.
+  exists [(lit "Host", lit "a"); (lit "host", lit "b")], (lit "Host").
+  split; [reflexivity|]. split; [reflexivity|]. vm_compute. discriminate.
+Qed.
+Print Assumptions C06_headers_agree_refuted_duplicated_singleton.
 
 (* path: for every decoder that is the identity on ASCII and maps non-empty input to non-empty
    output (CPython's utf-8/replace decoder: oracle), with and without trailing-slash stripping *)
@@ -34,10 +117,6 @@ Theorem C06_header_key_injective_refuted_with_underscore :
 Proof. exact mangle_injective_refuted_with_underscore. Qed.
 Print Assumptions C06_header_key_injective_refuted_with_underscore.
 
-(* The header-store agreement
-     forall hs names, valid_headers hs = true -> forallb uf names = true -> lookups_agree hs names = true
-   is NOT proved in Coq: it is evaluated by the extracted model on every generated request
-   (a counter-example would be reported as model-views-disagree). *)
 
 (* access_route / remote_addr: the two classes' computations agree for EVERY combination of
    Forwarded / X-Forwarded-For / X-Real-IP and peer address (non-empty peer): the peer is appended
@@ -127,3 +206,32 @@ Example C06_views_nontrivial :
   wsgi_path true [47; 195; 169; 47] [47; 233; 47] = [47; 233] /\
   asgi_path true [47; 233; 47] = [47; 233].
 Proof. vm_compute. repeat split; reflexivity. Qed.
+
+(* the hypotheses of the record theorem are satisfiable by a non-trivial request *)
+Definition example_req : areq :=
+  {| a_method := lit "POST"; a_path := [47; 195; 169; 47]; a_path_dec := [47; 233; 47];
+     a_query := lit "a=1&b=%20"; a_query_dec := Some (lit "a=1&b=%20");
+     a_headers := [(lit "X-Forwarded-For", lit "10.0.0.1, 10.0.0.2"); (lit "x-custom", lit "a");
+                   (lit "X-Custom", lit "b"); (lit "Content-Length", lit "5");
+                   (lit "Cookie", lit "a=1; b=2"); (lit "If-Match", lit "W/""x"", ""y""")];
+     a_scheme := lit "https"; a_server_name := lit "srv"; a_port := 8443%Z; a_port_text := lit "8443";
+     a_root_path := lit "/app"; a_peer := lit "10.0.0.1" |}.
+
+Example C06_valid_areq_satisfiable :
+  valid_areq example_req /\
+  let v := asgi_view true {| o_strip := true; o_keep_blank := true; o_csv := false |} (scope_of_req example_req) in
+  v_path v = [47; 233] /\ v_netloc v = lit "srv:8443" /\ v_content_length v = Ok (Some 5%Z) /\
+  v_access_route v = Ok [lit "10.0.0.1"; lit "10.0.0.2"; lit "10.0.0.1"] /\
+  v_uri v = lit "https://srv:8443/app" ++ [47; 233] ++ lit "?a=1&b=%20".
+Proof.
+  split.
+  - constructor.
+    + reflexivity.
+    + split; reflexivity.
+    + intros v H. vm_compute in H. injection H as <-. reflexivity.
+    + right. reflexivity.
+    + discriminate.
+    + split; [intro H; discriminate H | intros _; discriminate].
+    + repeat split; reflexivity.
+  - vm_compute. repeat split; reflexivity.
+Qed.
